@@ -106,6 +106,10 @@ func Setup(tag string) (*Env, error) {
 	return e, nil
 }
 
+// GoBin is the absolute path of the resolved go tool (exec.Command resolves bare names with the
+// PARENT's PATH, not cmd.Env).
+func (e *Env) GoBin() string { return filepath.Join(e.GOROOT, "bin", "go") }
+
 // RepoEnv is the environment for building inside the repository (vendor mode: no -mod=mod).
 func (e *Env) RepoEnv() []string { return append(append([]string{}, e.base...), "GOFLAGS=") }
 
@@ -119,7 +123,7 @@ func (e *Env) ScratchEnv(extra ...string) []string {
 func (e *Env) BuildGoderive() error {
 	out := filepath.Join(e.Scratch, "goderive")
 	args := []string{"build", "-tags", "verif", "-cover", "-coverpkg=./...", "-o", out, "."}
-	cmd := exec.Command("go", args...)
+	cmd := exec.Command(e.GoBin(), args...)
 	cmd.Dir = e.Repo
 	cmd.Env = e.RepoEnv()
 	b, err := cmd.CombinedOutput()
@@ -156,7 +160,7 @@ func (e *Env) Coverage() map[string]float64 {
 	if len(ents) == 0 {
 		return res
 	}
-	cmd := exec.Command("go", "tool", "covdata", "percent", "-i="+e.CoverDir)
+	cmd := exec.Command(e.GoBin(), "tool", "covdata", "percent", "-i="+e.CoverDir)
 	cmd.Env = e.RepoEnv()
 	cmd.Dir = e.Repo
 	out, err := cmd.Output()
